@@ -6,7 +6,7 @@
              clear_eq_fresh for EVERY prior state, clear_resets, history_keeps_config / clear_after_history for every
              history, instances_independent_struct, fft_view_history_independent / instances_independent_partial (under
              the assumed prefix property of the FFT tables), and the negations vr_not_independent (F6) and
-             clear_forgets_ratio_without_channels (F18).
+             (clear_forgets_ratio_without_channels: historical witness of F18, repaired in /repo by 76fe472; replayed).
   tie        (1) harness/chan/gen.c reads the member list of struct soxr, the members soxr_clear copies back from tmp, the
                  members soxr_set_input_fn / soxr_create / initialise assign, the memset / delete0 / RESET_ON_CLEAR shape,
                  out of the TEXT of /repo/src/soxr.c on every run -> Chan/Generated.lean; `decide` theorems compare them
